@@ -115,11 +115,40 @@ def _aliased_out(ctx, name, x, y):
         _cmp_arrays(ctx, a, want, "%s with %s: the dividend afterwards" % (name, how), want_poly=True)
 
 
+def _rounding_natively(ctx):
+    """around / round (function, numpy spelling, method) on float constants for every number of decimals -3..40 and 100, 308, 400:
+    numpy's values (nan-aware, exact)."""
+    import numpoly
+
+    vals = numpy.array([1e-20, 4e-19, 6e-19, 1 / 3000.0, 2.5, -0.125, 123456.789, 1e15 + 0.3, 5e-324, -7.5e-10])
+    for shape in ((10,), (2, 5), ()):
+        x = vals.reshape(shape) if shape else numpy.array(vals[3])
+        for d in list(range(-3, 41)) + [100, 308, 400]:
+            with numpy.errstate(all="ignore"):
+                want = numpy.around(x, d)
+                for label, f in (("numpoly.around", lambda: numpoly.around(numpoly.polynomial(x), d)), ("numpy.around(poly)", lambda: numpy.around(numpoly.polynomial(x), d)),
+                                 ("numpy.round(poly)", lambda: numpy.round(numpoly.polynomial(x), d)), ("poly.round()", lambda: numpoly.polynomial(x).round(d)),
+                                 ("numpoly.around(decimals=)", lambda: numpoly.around(numpoly.polynomial(x), decimals=d))):
+                    try:
+                        got = f()
+                        got = got.tonumpy() if isinstance(got, numpoly.ndpoly) else numpy.asarray(got)
+                    except Exception as e:
+                        ctx.unexpected_exception(e, "%s with %d decimals" % (label, d))
+                        continue
+                    if got.shape != want.shape or not numpy.array_equal(got, want, equal_nan=True):
+                        ctx.fail("value", "%s with %d decimals on %s gives %s, numpy %s" % (label, d, numpy.asarray(x).tolist(), got.tolist(), want.tolist()))
+                        break
+
+
 def body(ctx: H.BaseCtx):
     import numpoly
 
     case = ctx.case
     fn, par = case["fn"], case.get("par", {})
+    if fn == "rounding-native":
+        if not ctx.symbolic and H.NATIVE_RUN_INDEX == 0:
+            _rounding_natively(ctx)
+        return
     x, p = _vals(ctx, case["operands"][0])
     y = q = None
     if len(case["operands"]) > 1:
@@ -307,6 +336,8 @@ def gen_cases(tier: str, seed: int) -> List[Dict]:
         add("isclose", [arr("a", shape, 2, ties=False), arr("b", shape, 2, ties=False)], {"kw": rng.choice([{}, {"rtol": 0.25, "atol": 0}, {"rtol": 0, "atol": 2}])})
         for ax in range(nd):
             add("diff", [arr("a", shape, A)], {"axis": ax, "n": rng.choice([1, 2])})
+    # rounding functions: native only (floats), every number of decimals
+    cases.append({"id": "%s-%03d-rounding-native" % (PROP, n + 1), "op": "rounding-native", "fn": "rounding-native", "operands": [{"kind": "array", "shape": [], "slots": [1]}], "par": {}, "native_only": True, "limits": lim})
     return cases
 
 
